@@ -7,6 +7,8 @@ ASSUMPTIONS = [
     "products of after-targets count as tracked (pytask records them as neighbours); NaN-like hashed values are not generated",
     "Lean side (Properties/C03.lean): state = content id (time stamps are not part of the model: the (path, mtime) memo, finding F4, is C12's subject); "
     "WF P (unique task ids, a task lists a product once, module files are not products) is a hypothesis of C03_repeat",
+    "generated projects also contain symlinked inputs, DirectoryNode products next to file products and a constant hashed PythonNode dependency "
+    "(tuple with str and Path); successive builds of one history run in fresh processes under different PYTHONHASHSEEDs",
 ]
 EDITS = ["touch", "touch", "rewrite_same", "rewrite_same", "write", "revert", "bump", "revert_module", "tamper", "delete_product", "add_task"]
 CFGS = [{}, {}, {}, {"k": "task_t00x"}, {"k": "task_t01x or task_t02x"}, {"dry": True}, {"force": True}]
@@ -40,7 +42,7 @@ def histories(ctx):
     rng = ctx.rng
     hs = []
     for i in range(ctx.scale(70, 800)):
-        spec = engine.gen_spec(rng, nt=(2, 7), after_p=0.2, after_needs_prods=True)
+        spec = engine.gen_spec(rng, nt=(2, 7), after_p=0.2, after_needs_prods=True, link_p=0.3, dirprod_p=0.3, hashed_p=0.25)
         h = histgen.random_history(rng, spec, rng.randint(4, 10), EDITS, CFGS, final_build={})
         h["steps"] = [["build", {}]] + h["steps"] + [["build", {}]]
         hs.append(h)
@@ -55,7 +57,7 @@ def nontrivial(h, recs):
 def run(ctx):
     ctx.rule = ("histories as in C02 with the edit mix shifted to touch-only, identical rewrites, edit-then-revert, unrelated edits, selections; oracle = harness "
                 "ground truth of tracked contents at each task's last SUCCESS/PERSISTENCE; non-trivial = ≥3 builds and ≥1 content-preserving or content-changing edit")
-    engine.run_campaign(ctx, histories(ctx), oracle, nontrivial=nontrivial, sel_eval=engine.sel_eval)
+    engine.run_campaign(ctx, histories(ctx), oracle, nontrivial=nontrivial, sel_eval=engine.sel_eval, rotate_seeds=True)
 
 
 def replay(ctx, obj):
